@@ -110,7 +110,7 @@ func Index(t *rapid.T, tl *refmodel.Timeline, startS int64) (n int64, regime str
 		n = 0
 	}
 	// segment numbers are 32 bit in ISO BMFF (mfhd.sequence_number): keep snr+n below 2^32
-	if lim := int64(1<<32) - 2 - tl.Cfg.Snr; n > lim {
+	if lim := int64(1<<32) - 200000 - tl.Cfg.Snr; n > lim {
 		n = lim - int64(rapid.IntRange(0, 1000).Draw(t, "back"))
 		regime = "near-2^32"
 	}
